@@ -63,6 +63,9 @@ func (g *Gen) historyStep() {
 		g.do(Step{Op: "Apply", Recv: f, Instrs: g.randomInstrs(s, 3, false)})
 	case 10:
 		cl := g.randomClause(s, 1)
+		if g.rng.Intn(3) == 0 { // nothing filtered away: the filtered frame is the receiver itself
+			cl = []Clause{{K: "null"}, {K: "and", Subs: []Clause{{K: "null"}}}, {K: "or", Subs: []Clause{{K: "null"}}}}[g.rng.Intn(3)]
+		}
 		g.do(Step{Op: "FilteredApply", Recv: f, Clause: &cl, Instrs: g.randomInstrs(s, 2, true)})
 	case 11:
 		e := g.genExpr(s, types4[g.rng.Intn(4)], 2)
@@ -130,6 +133,11 @@ func (g *Gen) builtinAggs(s schema) []Agg {
 }
 
 func genC01(g *Gen) {
+	for rep := 0; rep < g.pick(30, 300); rep++ {
+		g.begin("sibling column additions")
+		g.siblingAdds(g.do(g.stdNew([]int{1, 3, 6}[g.rng.Intn(3)], g.oneOf([]string{"AB", "ABF", "SAT", "EXAF"}), 8)))
+		g.end()
+	}
 	colsets := []string{"ABF", "AFTSE", "SREX", "ABCFGTUSRED", "FS", "ATE"}
 	sizes := []int{0, 1, 2, 3, 5, 8, 13, 21, 40}
 	if g.thorough() {
